@@ -92,6 +92,110 @@ def mutate(rng, name, data, k):
     return f'bad{k}.{ext}', bytes(b + b[len(b) // 2:]), f'{name} with duplicated tail'
 
 
+def _varint(n):
+    out = bytearray()
+    while True:
+        b = n & 0x7f
+        n >>= 7
+        if n:
+            out.append(b | 0x80)
+        else:
+            out.append(b)
+            return bytes(out)
+
+
+def _rdvarint(buf, at):
+    n = i = 0
+    while True:
+        b = buf[at]
+        at += 1
+        n |= (b & 0x7f) << (7 * i)
+        i += 1
+        if not b & 0x80:
+            return n, at
+
+
+def xz_with_size_fields(data, with_compressed=False):
+    """a valid single-block .xz whose Block Header carries the optional Uncompressed Size (and Compressed Size) fields, as
+    multi-threaded `xz -T<n>` writes them; returns (bytes, offset of the first size field)"""
+    import struct
+    import zlib
+    raw = lzma.compress(data, format=lzma.FORMAT_XZ, check=lzma.CHECK_CRC64)
+    hdr_sz = (raw[12] + 1) * 4
+    hdr = raw[12:12 + hdr_sz]
+    filt = hdr[2:5]
+    bs = struct.unpack('<I', raw[-8:-4])[0]
+    idx_sz = (bs + 1) * 4
+    idx_at = len(raw) - 12 - idx_sz
+    idx = raw[idx_at:idx_at + idx_sz]
+    unpadded, at = _rdvarint(idx, 2)
+    uncomp, at = _rdvarint(idx, at)
+    check_sz = 8
+    comp_sz = unpadded - hdr_sz - check_sz
+    comp_padded = (comp_sz + 3) // 4 * 4
+    blockdata = raw[12 + hdr_sz: 12 + hdr_sz + comp_padded + check_sz]
+    flags = 0x80 | (0x40 if with_compressed else 0)
+    body = bytes([flags]) + (_varint(comp_sz) if with_compressed else b'') + _varint(uncomp) + filt
+    total = (1 + len(body) + 4 + 3) // 4 * 4
+    body = body + b'\0' * (total - 1 - len(body) - 4)
+    h = bytes([total // 4 - 1]) + body
+    h += struct.pack('<I', zlib.crc32(h))
+    i = b'\0' + _varint(1) + _varint(total + comp_sz + check_sz) + _varint(uncomp)
+    i += b'\0' * (-len(i) % 4)
+    i += struct.pack('<I', zlib.crc32(i))
+    f = struct.pack('<I', len(i) // 4 - 1) + raw[6:8]
+    f = struct.pack('<I', zlib.crc32(f)) + f + b'YZ'
+    return raw[:12] + h + blockdata + i + f, 12 + 2
+
+
+def tar_with_header_fields(data, size=None, mtime=None):
+    """a one-member ustar/GNU archive whose size / mtime header fields are overwritten (octal, or GNU base-256 when the value
+    does not fit 11 octal digits or is negative), header checksum recomputed"""
+    import io
+    import tarfile
+    bio = io.BytesIO()
+    with tarfile.open(fileobj=bio, mode='w', format=tarfile.GNU_FORMAT) as tf:
+        ti = tarfile.TarInfo('t.log')
+        ti.size = len(data)
+        ti.mtime = 1700000000
+        tf.addfile(ti, io.BytesIO(data))
+    b = bytearray(bio.getvalue())
+
+    def field(v, width):
+        if 0 <= v < 8 ** (width - 1):
+            return (b'%0*o' % (width - 1, v)) + b'\0'
+        return bytes([0x80 if v >= 0 else 0xFF]) + (v % (1 << (8 * (width - 1)))).to_bytes(width - 1, 'big')
+    if size is not None:
+        b[124:136] = field(size, 12)
+    if mtime is not None:
+        b[136:148] = field(mtime, 12)
+    b[148:156] = b' ' * 8
+    b[148:156] = b'%06o\0 ' % sum(b[:512])
+    return bytes(b)
+
+
+def structured_mutants(valids):
+    """well-formed containers whose OPTIONAL or NUMERIC header fields carry extreme values (a field a reader may trust before
+    any checksum is verified): list of (name, bytes, description)"""
+    import struct
+    log = valids['t.log']
+    out = []
+    for wc in (False, True):
+        good, off = xz_with_size_fields(log, wc)
+        out.append(('sz%d.log.xz' % wc, good, 'valid xz with Block Header size fields' + (' (compressed + uncompressed)' if wc else ' (uncompressed)')))
+        for tag, val in (('huge', b'\xff' * 8 + b'\x3f'), ('2^40', _varint(1 << 40)), ('zero', b'\x00'), ('plus1', _varint(len(log) + 1))):
+            bad = bytearray(good)
+            bad[off:off + len(val)] = val
+            out.append(('sz%d_%s.log.xz' % (wc, tag), bytes(bad), f'xz Block Header first size field overwritten with {tag} (header CRC not recomputed)'))
+    gz = valids['t.log.gz']
+    for tag, v in (('ffffffff', 0xFFFFFFFF), ('7fffffff', 0x7FFFFFFF), ('zero', 0), ('plus1', len(log) + 1), ('minus1', len(log) - 1)):
+        out.append(('isize_%s.log.gz' % tag, gz[:-4] + struct.pack('<I', v), f'gzip ISIZE trailer = {tag}'))
+    for tag, kw in (('mtime2^62', {'mtime': 1 << 62}), ('mtime2^64-1', {'mtime': (1 << 64) - 1}), ('mtime-5', {'mtime': -5}), ('mtime_y9999', {'mtime': 253402300800}),
+                    ('size2^62', {'size': 1 << 62}), ('size8g', {'size': 8 ** 11 - 1}), ('size0', {'size': 0}), ('size+1', {'size': len(log) + 1}), ('size-1', {'size': -1})):
+        out.append(('hdr_%s.tar' % tag.replace('^', '').replace('+', 'p').replace('-', 'm'), tar_with_header_fields(log, **kw), f'tar member header {tag}, checksum recomputed'))
+    return out
+
+
 def run_case(ctx, rng, work, bad, goods):
     paths = []
     order = rng.shuffle([('bad', None)] + [('good', g) for g in goods]) if goods else [('bad', None)]
@@ -121,8 +225,13 @@ def oracle_and_corr(ctx):
     plan = [(names[k % len(names)], k // len(names) + (k % 7)) for k in range(n)]
     # every container kind also gets the 'complete file + trailing bytes' mutants deterministically (mode 7)
     plan += [(nm, 7 + 8 * r) for nm in names if nm != 't.log' for r in range(ctx.q(2, 8))]
+    smut = structured_mutants(valids)
+    plan += [('@structured', j) for j in range(len(smut))]
     for k, (name, kk) in enumerate(plan):
-        bname, bdata, desc = mutate(rng, name, valids[name], kk)
+        if name == '@structured':
+            bname, bdata, desc = smut[kk]
+        else:
+            bname, bdata, desc = mutate(rng, name, valids[name], kk)
         bname = 'k%d_%s' % (k, bname)
         bad = os.path.join(work, bname)
         open(bad, 'wb').write(bdata)
@@ -166,7 +275,7 @@ def oracle_and_corr(ctx):
                 os.unlink(g['path'])
         os.unlink(bad)
     orc = {'evaluations': ev, 'distinct_nontrivial': ev, 'failures': failures, 'samples': samples, 'exit_status_histogram': outcomes,
-           'rule': f'{n} mutants (truncation at boundary and random points, header bit flips, byte smashes, random bytes, constant fill, duplicated tail, complete file + trailing junk / second member, valid content under '
+           'rule': f'{n} mutants (truncation at boundary and random points, header bit flips, byte smashes, random bytes, constant fill, duplicated tail, complete file + trailing junk / second member, well-formed xz / gzip / tar files whose size and time header fields carry extreme values, valid content under '
                    f'15 mismatching names) of valid text/gz/bz2/xz/lz4/tar/wtmp/evtx/journal files, alone and beside 1-3 valid sources in shuffled order, half under delay plans; '
                    f'exit status in {{0,1}}, no panic text, exit within {TIME_LIMIT}s, healthy sources\' lines all printed in merge order; every mutant is distinct (fresh PRNG draw)'}
     corr = coord_common.trace_correspondence(ctx, [(n_, t, p) for n_, t, p in cases if t and t[-1] == 'E'])
